@@ -17,8 +17,8 @@ class SpecError(Exception):
     pass
 
 
-LISTKEYS = {'uses', 'replace', 'flags', 'records', 'properties', 'enforce_extra', 'byref_types', 'identity_methods', 'token_types', 'zero_init_types', 'cellset_types', 'globals', 'enum_types', 'inline', 'allow_calls', 'partial_structs', 'expose', 'keep_params', 'base_uses'}
-MAPKEYS = {'typemap', 'callmap', 'opmap', 'enums', 'membermap', 'subst', 'members', 'call_effects', 'abs_calls', 'instances', 'convmap', 'sz_cond_calls'}
+LISTKEYS = {'uses', 'replace', 'flags', 'records', 'properties', 'enforce_extra', 'byref_types', 'identity_methods', 'token_types', 'zero_init_types', 'cellset_types', 'globals', 'enum_types', 'inline', 'allow_calls', 'partial_structs', 'expose', 'keep_params', 'base_uses', 'sz_loop_havoc'}
+MAPKEYS = {'typemap', 'callmap', 'opmap', 'enums', 'membermap', 'subst', 'members', 'call_effects', 'abs_calls', 'instances', 'convmap', 'sz_cond_calls', 'sz_witness', 'sz_call_map'}
 
 
 def parse_spec(path):
@@ -102,7 +102,8 @@ def load_all(specdir):
                 u['sections'][k] = v
         for k in ('backend', 'flags', 'records', 'typemap', 'tu', 'filter', 'decl', 'records_tu', 'timeout', 'cost', 'self', 'callmap',
                   'enums', 'membermap', 'opmap', 'replace', 'uses', 'mode', 'kind', 'class', 'identity_methods', 'token_types',
-                  'zero_init_types', 'cellset_types', 'globals', 'enum_types', 'inline', 'byref_types', 'unwind', 'cap', 'abstract', 'static', 'members', 'triage_cap', 'select_kind', 'select_mentions', 'select_excludes', 'select_pick', 'select_ops', 'through_kind', 'through_mentions', 'force_self', 'free_locals_nondet', 'string_as_vector'):
+                  'zero_init_types', 'cellset_types', 'globals', 'enum_types', 'inline', 'byref_types', 'unwind', 'cap', 'abstract', 'static', 'members', 'triage_cap', 'select_kind', 'select_mentions', 'select_excludes', 'select_pick', 'select_ops', 'through_kind', 'through_mentions', 'force_self', 'free_locals_nondet', 'string_as_vector',
+                  'sz_cond_calls', 'sz_witness', 'sz_call_map', 'sz_loop_inv', 'sz_loop_havoc', 'sz_params'):
             if k not in u and k in base:
                 u[k] = base[k]
         done.add(u['name'])
